@@ -22,6 +22,17 @@ Theorem C17_parameter_types : forall A nil_t ps ds e i p, NoDup ps -> nth_error 
 Proof. exact set_params_spec. Qed.
 Print Assumptions C17_parameter_types.
 
+(* a receiver of union type: each of the n block variables gets the union, over the variants of the receiver, of what
+   that variant's method declares for the position — NilClass where the variant declares fewer parameters *)
+Theorem C17_union_receiver : forall A nil_t unify n rows i, rows <> [] -> i < n ->
+  nth_error (union_declared A nil_t unify n rows) i = Some (unify (map (fun ds => nth i ds nil_t) rows)).
+Proof. exact union_declared_spec. Qed.
+Print Assumptions C17_union_receiver.
+
+Example C17_union_example :
+  union_declared string "NilClass" unify_printed 2 [["untyped"; "Float"]; ["Integer"]] = ["Union<untyped Integer>"; "Union<Float NilClass>"].
+Proof. vm_compute. reflexivity. Qed.
+
 Example C17_example :
   let e := [("x", "String")] in
   let blk := SBlk string ["x"; "i"; "z"] ["Integer"; "Integer"]
